@@ -23,5 +23,9 @@ Definition known_C19_family (f : bytes) : bool :=
 Definition known_C19_totallen (f : bytes) : bool :=
   is_ip4 f && (4 * (at_ f 14 mod 16) <=? word_at f 16) && (word_at f 16 <? 4 * (at_ f 14 mod 16) + 8).
 
+(* the same for IPv6 (since /repo 28b2fc9 accepts trailing bytes): PayloadLength below 8 *)
+Definition known_C19_paylen (f : bytes) : bool :=
+  is_ip6 f && (word_at f 18 <? 8).
+
 Definition known_C19_frame (f : bytes) : bool :=
-  known_C19_iphdr f || known_C19_family f || known_C19_totallen f.
+  known_C19_iphdr f || known_C19_family f || known_C19_totallen f || known_C19_paylen f.
